@@ -91,7 +91,9 @@ var queueTable = []queueSpec{
 	{"demux.w", "goat.Demux.newConnLocked", "chan *pb.Rpc", 1,
 		[]string{"demux.connWriter"}, []string{"chan.write"}, []string{"goat.Demux.Cancel"}, true, "logical connection → shared transport"},
 	{"http.readCh", "goat.GoatOverHttp.retrieve", "chan *pb.Rpc", 0,
-		[]string{"goat.httpReadWriter.Read"}, []string{"goat.GoatOverHttp.ServeHTTP"}, []string{"goat.GoatOverHttp.unregisterLocked"}, true, "HTTP deliveries"},
+		[]string{"goat.httpReadWriter.Read"}, []string{"goat.GoatOverHttp.ServeHTTP"}, nil, true, "HTTP deliveries (never closed: closure is signalled on http.done)"},
+	{"http.done", "goat.GoatOverHttp.retrieve", "chan struct{}", 0,
+		[]string{"goat.httpReadWriter.Read", "goat.GoatOverHttp.ServeHTTP"}, nil, []string{"goat.GoatOverHttp.unregisterLocked"}, false, "closure signal of an HTTP connection"},
 }
 
 type queueActual struct {
